@@ -279,11 +279,12 @@ def run_gen(ctx, st):
     cmd = ctx.tlc_cmd(st["module"], name, st["workers"], st["xmx"])
     hb = ctx.harness(race=st.get("race", False))
     t0 = time.time()
+    henv = dict(os.environ, VERIF_KNOWN=",".join(d for g in open_groups(ctx.findings, st["family"]) for d in g))
     tlc_log = os.path.join(ctx.dir, "tlc_%d.log" % ctx.nrun)
     with open(tlc_log, "w") as lf:
         tlc = subprocess.Popen(cmd, cwd=ctx.specdir, stdout=subprocess.PIPE, stderr=subprocess.DEVNULL)
         rp = subprocess.Popen([hb, "replay", st["family"], "--seed", str(ctx.seed)] + st["replay_args"],
-                              stdin=tlc.stdout, stdout=subprocess.PIPE, stderr=lf, text=True)
+                              stdin=tlc.stdout, stdout=subprocess.PIPE, stderr=lf, text=True, env=henv)
         tlc.stdout.close()
         try:
             out, _ = rp.communicate(timeout=st["timeout"])
@@ -321,8 +322,9 @@ def run_go(ctx, st):
     hb = ctx.harness(race=st["race"])
     t0 = time.time()
     cmd = [hb, st["mode"], st["family"], "--seed", str(ctx.seed)] + st["args"]
+    henv = dict(os.environ, VERIF_KNOWN=",".join(d for g in open_groups(ctx.findings, st["family"]) for d in g))
     try:
-        r = subprocess.run(cmd, capture_output=True, text=True, timeout=st["timeout"], cwd=ctx.dir)
+        r = subprocess.run(cmd, capture_output=True, text=True, timeout=st["timeout"], cwd=ctx.dir, env=henv)
     except subprocess.TimeoutExpired:
         raise Infra("timeout in %s" % st["label"])
     if r.returncode not in (0, 1):
